@@ -8,6 +8,8 @@ CONSTANTS
   FromInput <- FromBoth
   ExplicitTargets = FALSE
   Refusals = FALSE
+  ZeroHeightRefused = FALSE
+  AlignTarget = FALSE
   MaxLevel = 2
 INIT Init
 NEXT Next
